@@ -102,7 +102,8 @@ def haltName : Halt → String
   | .needHash _ => "need_hash"
   | .outOfFuel => "out_of_fuel"
 
-def fuel : Nat := 200000
+/-- generated programs need < 10 000 steps (bounded loops, the 1024-deep push loop) -/
+def fuel : Nat := 30000
 
 def handle (u : Unit) (line : String) : Unit × String :=
   match words line with
